@@ -26,7 +26,7 @@ Theorem C08_eval_nodeset_nodup :
 Proof. exact eval_nodeset_nodup. Qed.
 Print Assumptions C08_eval_nodeset_nodup.
 
-(* ... and the statement is FALSE for the code as it is (switch f_alldup on): "//" steps from nested context nodes
+(* ... and the statement is FALSE for the code as it is (switch f_alldup on): '//' steps from nested context nodes
    insert a node twice. Witness (/a:c/a:l1[2] | /a:c/a:l1[2]/a:in)//a:x on the example tree: the set holds x twice. *)
 Definition dup_witness : expr :=
   EStep (EUnion (chp (ch ERoot n_c) n_l1 (num [50])) (ch (chp (ch ERoot n_c) n_l1 (num [50])) n_in))
@@ -99,7 +99,7 @@ Theorem C08_fastpath_equiv :
 Proof. exact fastpath_equiv. Qed.
 Print Assumptions C08_fastpath_equiv.
 
-(* the lookup as coded agrees only for string right-hand sides: with a number it compares "5.0" with "5" *)
+(* the lookup as coded agrees only for string right-hand sides: with a number it compares '5.0' with '5' *)
 Theorem C08_fastpath_nonstring_rhs_refuted :
   exists e, observe (eval_top spec_flags ex_tree IRoot e) = ONodes [7] /\
             observe (eval_top impl_flags ex_tree IRoot e) = ONodes [].
